@@ -11,6 +11,7 @@ walk; `wf ⇒ exactly one edge contains the value` is `partitionFrom_spec` + dis
 The same predicate is evaluated by the native driver on every dump of an implementation marker.
 -/
 import Pep508.Proofs.WfAnd
+import Pep508.Proofs.WfUnary
 set_option linter.unusedSectionVars false
 namespace Pep508.C20
 open Pep508
@@ -39,5 +40,55 @@ theorem apply_ranges_nonempty (f : Tree νr νb α → Tree νr νb α → Tree 
     falls through) and the structural predicate implies the semantic one used by C02 -/
 theorem wf_covers (v : νr) (es : Edges νr νb α) (h : (Tree.rng v es).wf = true) : Covers es.toList :=
   (Tree.OK_of_wf _ h).2
+
+theorem wf_restrict (f : νb → Option Bool) (t : Tree νr νb α) (h : t.wf = true) :
+    (t.restrict f).wf = true := Pep508.wf_restrict f t h
+
+theorem wf_simplify (pv : νr) (lo hi : Bnd α) (t : Tree νr νb α) (h : t.wf = true) :
+    (t.simplifyPy pv lo hi).wf = true := Pep508.wf_simplifyPy pv lo hi t h
+
+theorem wf_complexify (pv : νr) (lo hi : Bnd α) (t : Tree νr νb α) (h : t.wf = true) :
+    (t.complexifyPy pv lo hi).wf = true := Pep508.wf_complexifyPy pv lo hi t h
+
+/-- the diagram of `v ∈ r` for a normalised range set (what every version / string comparison
+    expression becomes) -/
+theorem wf_range_atom (v : νr) (r : Ranges α) (h : Ranges.Norm r) :
+    (rangeNode v r : Tree νr νb α).wf = true := wf_rangeNode v r h
+
+/-- markers reachable through the API: constants, range atoms, boolean atoms, closed under every
+    operation, for any bounds and any restriction -/
+inductive Reach (pv : νr) : Tree νr νb α → Prop where
+  | tt : Reach pv (.leaf true)
+  | ff : Reach pv (.leaf false)
+  | range (v : νr) (r : Ranges α) : Ranges.Norm r → Reach pv (rangeNode v r)
+  | boolPos (v : νb) : Reach pv (.bool v (.leaf true) (.leaf false))
+  | boolNeg (v : νb) : Reach pv (.bool v (.leaf false) (.leaf true))
+  | and {x y} : Reach pv x → Reach pv y → Reach pv (Tree.and x y)
+  | or {x y} : Reach pv x → Reach pv y → Reach pv (Tree.or x y)
+  | not {x} : Reach pv x → Reach pv x.not
+  | restrict {x} (f : νb → Option Bool) : Reach pv x → Reach pv (x.restrict f)
+  | simplify {x} (lo hi : Bnd α) : Reach pv x → Reach pv (x.simplifyPy pv lo hi)
+  | complexify {x} (lo hi : Bnd α) : Reach pv x → Reach pv (x.complexifyPy pv lo hi)
+
+/-- **C20**: every reachable marker is ordered, reduced and partitioning -/
+theorem reach_wf (pv : νr) (t : Tree νr νb α) (h : Reach pv t) : t.wf = true := by
+  induction h with
+  | tt => rfl
+  | ff => rfl
+  | range v r hn => exact wf_rangeNode v r hn
+  | boolPos v => simp [Tree.wf, Tree.rootGt]
+  | boolNeg v => simp [Tree.wf, Tree.rootGt]
+  | and _ _ ihx ihy => exact Pep508.wf_and _ _ ihx ihy
+  | or _ _ ihx ihy => exact Pep508.wf_or _ _ ihx ihy
+  | not _ ih => exact Pep508.wf_not _ ih
+  | restrict f _ ih => exact Pep508.wf_restrict f _ ih
+  | simplify lo hi _ ih => exact Pep508.wf_simplifyPy pv lo hi _ ih
+  | complexify lo hi _ ih => exact Pep508.wf_complexifyPy pv lo hi _ ih
+
+/-- non-vacuity: a reachable marker built with every operation, over `Nat` -/
+example : Reach (νb := Nat) (α := Nat) 0
+    (((Tree.and (rangeNode 0 [⟨.incl 3, .excl 5⟩]) (.bool 1 (.leaf true) (.leaf false))).complexifyPy 0 (.incl 4) .unb).restrict
+      (fun _ => some true)) :=
+  .restrict _ (.complexify _ _ (.and (.range 0 _ (by simp [Ranges.Norm, Ivl.valid])) (.boolPos 1)))
 
 end Pep508.C20
